@@ -160,7 +160,18 @@ func raceTier(e *core.Env, reps int, prop, filter string) {
 	// the free runs have their own per-run watchdogs; the whole tier is bounded by ten
 	// minutes (a capped tier is reported as such, not as an error), and it keeps the
 	// worker's heartbeat alive while it waits
-	ctx, cancel := context.WithTimeout(context.Background(), 10*time.Minute)
+	limit := 10 * time.Minute
+	if !e.Deadline.IsZero() {
+		if rem := time.Until(e.Deadline) - 20*time.Second; rem < limit {
+			limit = rem
+		}
+	}
+	if limit < 15*time.Second {
+		e.Capped()
+		e.Note("race tier (%s) skipped: the time budget of this run is used up", filter)
+		return
+	}
+	ctx, cancel := context.WithTimeout(context.Background(), limit)
 	defer cancel()
 	stopBeat := make(chan struct{})
 	defer close(stopBeat)
@@ -185,7 +196,7 @@ func raceTier(e *core.Env, reps int, prop, filter string) {
 			return
 		}
 		e.Capped()
-		e.Note("race tier (%s) stopped after ten minutes: %d scenarios finished; reports so far are evaluated", filter, strings.Count(stderr.String(), "RACERUN-SCENARIO"))
+		e.Note("race tier (%s) stopped at its time limit: %d scenarios finished; reports so far are evaluated", filter, strings.Count(stderr.String(), "RACERUN-SCENARIO"))
 	}
 	out := stderr.String()
 	if hm := regexp.MustCompile(`RACERUN-HANG scenario=(\S+)`).FindStringSubmatch(out); hm != nil {
